@@ -56,6 +56,7 @@ type Ctx struct {
 	curCase    int
 	t0         time.Time
 	notes      map[string]any
+	firstCase  any
 }
 
 func envInt(name string, def int) int {
@@ -133,6 +134,9 @@ func (c *Ctx) Journal(k int, desc any) {
 	c.mu.Lock()
 	defer c.mu.Unlock()
 	c.curCase = k
+	if c.firstCase == nil {
+		c.firstCase = map[string]any{"case": k, "input": desc}
+	}
 	if c.journal == nil {
 		return
 	}
@@ -265,6 +269,9 @@ func (c *Ctx) Finish() {
 	for name, m := range c.distinct {
 		writeHashes("distinct_"+name+suffix+".h64", m)
 		dcount[name] = len(m)
+	}
+	if len(c.samples) == 0 && c.firstCase != nil {
+		c.samples = append(c.samples, c.firstCase)
 	}
 	res := map[string]any{
 		"prop": c.Prop, "seed": c.Seed, "tier": c.Tier, "batch": c.Batch, "nbatch": c.NBatch, "start": c.Start,
